@@ -100,10 +100,13 @@ def ClockAdvances {s0 : State} (x : Exec s0) : Prop :=
 def FiniteWakeups {s0 : State} (x : Exec s0) (t : Tid) : Prop :=
   ∃ n, ∀ j k, n ≤ j → (x.ρ j).pc t = .wPdWait k → x.σ j ≠ some (.thr t (.pdRet k false))
 
-/-- From some time on, a semaphore that belongs to an in-flight nsync_wait_n is only posted by a waker that has
-    popped a record and owes the post. -/
+/-- From some time on, a semaphore that belongs to an in-flight nsync_wait_n call is only posted by a waker that has
+    popped a (live) record of THAT call and owes the post.  (The acceptor accepts `sem v` on any semaphore from any
+    thread — traffic of other layers —, and it accepts the late V of a waker whose record has died on ANY semaphore,
+    also one that has been handed to another call in the meantime; nsync itself posts `p_nw->sem` only.) -/
 def FiniteStrayPosts {s0 : State} (x : Exec s0) : Prop :=
-  ∃ n, ∀ j u k, n ≤ j → x.σ j = some (.thr u (.semV k)) → (x.ρ j).semUser k ≠ none → (x.ρ j).post u ≠ none
+  ∃ n, ∀ j u k, n ≤ j → x.σ j = some (.thr u (.semV k)) → ∀ t, (x.ρ j).semUser k = some t →
+    ∃ r, (x.ρ j).post u = some r ∧ ((x.ρ j).rcd r).live = true ∧ ((x.ρ j).rcd r).owner = t
 
 variable {s0 : State}
 
